@@ -548,6 +548,46 @@ def _scenarios(ctx, g):
         ctx.case("scenario:killed-after-rename:%d" % nrep)
         if nrep > 20:
             break
+    # 5c. a refresh against a REACHABLE source (fake repository offering both files with new hashes): every prefix of its file
+    #     operations killed - the download path never leaves a partial file under a schema name either, and a later load works
+    offered = list(FILES.values())
+    d0 = fresh("dl")
+    k = sched.spawn("R", d0, g["inst"], ("refresh_fake", offered))
+    nsteps = 0
+    while k.pending:
+        k.grant(); adv(k); nsteps += 1
+    f0 = k.fin or {}
+    k.reap()
+    if f0.get("result") != "ran":
+        out.append(("refresh-download-failed", "refresh-download", "a refresh against a reachable source ended with %s" % f0))
+    else:
+        for f in offered:
+            a = os.path.join(d0, f)
+            if not os.path.exists(a) or open(a, "rb").read() != open(os.path.join(g["inst"], f), "rb").read():
+                out.append(("population-incomplete", "refresh-download", "a completed refresh left %s missing or different from the source" % f))
+    ctx.case("scenario:refresh-download")
+    for cut in range(nsteps):
+        d = fresh("dl")
+        k = sched.spawn("R", d, g["inst"], ("refresh_fake", offered))
+        for _ in range(cut):
+            if k.pending:
+                k.grant(); adv(k)
+        if not k.fin:
+            k.kill()
+        else:
+            k.reap()
+        for f in offered:
+            a = os.path.join(d, f)
+            if os.path.exists(a) and open(a, "rb").read() != open(os.path.join(g["inst"], f), "rb").read():
+                out.append(("torn-final", "refresh-download-killed-%d" % cut,
+                            "refresh killed after %d file operations: %s carries its schema name but holds %d of %d bytes"
+                            % (cut, f, os.path.getsize(a), os.path.getsize(os.path.join(g["inst"], f)))))
+        l = sched.spawn("L", d, g["inst"], ("load", WANT_VERSION))
+        fl = run_to_end(l)
+        l.reap()
+        if fl.get("result") != "ok" or fl.get("digest") != g["ref"]:
+            out.append(("load-failed", "refresh-download-killed-%d" % cut, "refresh killed after %d file operations, later load: %s" % (cut, fl)))
+        ctx.case("scenario:refresh-download-killed:%d" % cut)
     return out
 
 
